@@ -130,7 +130,8 @@ let () =
       let net_mode = bar > 0 && line.[0] = 'x' in    (* print the net effect of an op's Messages instead of the Messages *)
       let malformed = bar > 0 && line.[0] = 'z' in   (* paths with empty clauses: the mirror statement is not evaluated *)
       let opl = List.filter (fun s -> s <> "") (split ';' body) in
-      let w = ref (empty_world ops) in
+      let pw = ref (empty_pworld ops) in
+      let w = ref (!pw).pw_world in
       let nsess = ref 0 in
       let quiet_used = ref false in
       let tainted : (int, unit) Hashtbl.t = Hashtbl.create 8 in
@@ -163,7 +164,8 @@ let () =
             if pr.taint_self then Hashtbl.replace tainted kk ();
             match pr.cmd with Some c -> (true, Some (ECmd (n_of_int kk, c))) | None -> (false, None)
           end in
-        (match ev with Some e -> w := world_step ops all_fixed !w e | None -> w := { !w with w_last = [] });
+        (match ev with Some e -> pw := pworld_step ops all_fixed !pw e | None -> pw := { !pw with pw_world = { (!pw).pw_world with w_last = [] } });
+        w := (!pw).pw_world;
         let sv = w_srv ops !w in
         let b = Buffer.create 512 in
         Buffer.add_string b (Printf.sprintf "%d %s%s %s{" j code (if valid then "" else "!") (if net_mode then "N" else "M"));
@@ -176,10 +178,15 @@ let () =
                 List.iter (fun p -> Hashtbl.replace net (path_str p) "-") d.di_removed;
                 List.iter (fun (p, vs) -> List.iter (fun v -> Hashtbl.replace net (path_str p) (payload_str v)) vs) d.di_sets) ds;
               let ents = List.sort compare (Hashtbl.fold (fun k v acc -> (k, v) :: acc) net []) in
+              (* and the bag of everything sent (what is sent, however it is split into Messages) *)
+              let bag = List.sort compare (List.concat_map (fun d ->
+                List.map (fun p -> "R" ^ path_str p) d.di_removed @
+                List.concat_map (fun (p, vs) -> List.map (fun v -> "S" ^ path_str p ^ "=" ^ payload_str v) vs) d.di_sets) ds) in
               if ents <> [] then begin
                 if not !firstc then Buffer.add_char b ' ';
                 firstc := false;
-                Buffer.add_string b (Printf.sprintf "c%d:{%s}" (int_of_n s) (String.concat "," (List.map (fun (k, v) -> k ^ "=" ^ v) ents)))
+                Buffer.add_string b (Printf.sprintf "c%d:{%s}[%s]" (int_of_n s) (String.concat "," (List.map (fun (k, v) -> k ^ "=" ^ v) ents))
+                                       (String.concat "," bag))
               end
             end else begin
               if not !firstc then Buffer.add_char b ' ';
